@@ -322,6 +322,8 @@ func execC19(seg []Ev) []Ev {
 		return execRace(in)
 	case "iso":
 		return execIso(in)
+	case "reent":
+		return execReent(in)
 	}
 	panic("C19: segment must begin with start / rstart / race")
 }
@@ -445,6 +447,53 @@ func execRepeat(in Ev) []Ev {
 	}
 	out = append(out, Ev{"op": "rend", "snap": s.snapshot()})
 	return out
+}
+
+// re-entrant evaluation: a caller-written function evaluates the very calculator that is calling it (with a variable set of
+// its own) - an evaluation nested inside another one is an interleaving, too; both must return the sequential results
+func execReent(in Ev) []Ev {
+	text := toStr(in["text"])
+	n := toInt(in["n"])
+	calc := calculator.NewExpressionCalculator()
+	calc.SetAutoVariables(false)
+	depth := 0
+	calc.DefaultFunctions().Add(functions.NewDelegatedFunction("Self", func(p []*variants.Variant, o variants.IVariantOperations) (*variants.Variant, error) {
+		k := p[0].AsInteger()
+		if k <= 1 || depth > 50 {
+			return variants.VariantFromInteger(1), nil
+		}
+		depth++
+		defer func() { depth-- }()
+		vs := variables.NewVariableCollection()
+		vs.Add(variables.NewVariable("n", variants.VariantFromInteger(k)))
+		return calc.EvaluateUsingVariables(vs)
+	}))
+	res := "?"
+	oc, _ := guarded(func() {
+		if err := calc.SetExpression(text); err != nil {
+			res = "error:" + errCode(err)
+			return
+		}
+		vs := variables.NewVariableCollection()
+		vs.Add(variables.NewVariable("n", variants.VariantFromInteger(n)))
+		v, err := calc.EvaluateUsingVariables(vs)
+		switch {
+		case err != nil:
+			res = "error:" + errCode(err)
+		case v == nil:
+			res = "nil"
+		default:
+			res = vtypeNames[v.Type()] + ":" + v.String()
+		}
+	})
+	if oc != "ok" {
+		res = oc
+	}
+	f := 1
+	for i := 2; i <= n; i++ {
+		f *= i
+	}
+	return []Ev{{"op": "reent", "text": text, "n": n, "result": res, "want": fmt.Sprint("Integer:", f)}}
 }
 
 // separate instances: customising the function table / variables of one calculator must not be visible in another one
@@ -688,6 +737,11 @@ func genC19(g *Gen) {
 			g.Run("free-running goroutines: "+mode, []Ev{{"op": "race", "mode": mode, "goroutines": gor, "iters": iters}})
 		}
 		return
+	}
+	for _, tx := range []string{"n * Self(n - 1)", "Self(n - 1) * n", "If(n <= 1, 1, n * Self(n - 1))", "Max(1, n) * Self(n - 1) * 1", "(n + 0) * (Self(n - 1) + 0)"} {
+		for n := 1; n <= 6; n++ {
+			g.Run("an evaluation nested inside an evaluation of the same calculator", []Ev{{"op": "reent", "text": tx, "n": n}})
+		}
 	}
 	for o := 0; o < 6; o++ {
 		g.Run("separate instances customise their own function tables", []Ev{{"op": "iso", "order": o}})
